@@ -153,6 +153,26 @@ func (v *Val) Build(order int) interface{} {
 		return Label{v.S}
 	case "time":
 		return time.Unix(v.I, 0).UTC()
+	case "fmap": // map[float64]string
+		out := make(map[float64]string)
+		for _, kv := range ents() {
+			var k float64
+			fmt.Sscanf(kv.K, "%g", &k)
+			out[k] = kv.V.S
+		}
+		return out
+	case "bmap": // map[bool]int
+		out := make(map[bool]int)
+		for _, kv := range ents() {
+			out[kv.K == "true"] = int(kv.V.I)
+		}
+		return out
+	case "kmap": // map[Label]string: struct keys
+		out := make(map[Label]string)
+		for _, kv := range ents() {
+			out[Label{kv.K}] = kv.V.S
+		}
+		return out
 	case "anymap": // map[interface{}]interface{}; keys "#<n>" become ints, everything else stays a string
 		out := make(map[interface{}]interface{})
 		for _, kv := range ents() {
